@@ -3,11 +3,14 @@ package models
 // Declarations of the engine intrinsics used by the models (symbolic execution only).
 
 func vUF(name string, outLen int, parts ...[]byte) []byte { panic("symbolic only") }
+func vUFN(name string, outLen int, parts ...[]byte) []byte { panic("symbolic only") }
 func vUFBool(name string, parts ...[]byte) bool           { panic("symbolic only") }
 func vFresh(name string, n int) []byte                    { panic("symbolic only") }
 func vFreshBool(name string) bool                         { panic("symbolic only") }
 func vBytesEq(a, b []byte) bool                           { panic("symbolic only") }
 func vStructField(v interface{}, i int) interface{}       { panic("symbolic only") }
+func vGhostSet(p interface{}, name string, v []byte)      { panic("symbolic only") }
+func vGhostGet(p interface{}, name string) []byte         { panic("symbolic only") }
 func vAssume(c bool)                                      { panic("symbolic only") }
 
 func clone(b []byte) []byte {
